@@ -12,7 +12,8 @@ import (
 // group is one logical request: the attempts [start,end) of the log.
 type group struct {
 	start, end int
-	read       bool // GET / HEAD offered to mirrors: clause (5) applies
+	read       bool          // GET / HEAD offered to mirrors: clause (5) applies
+	called     time.Duration // L1: harness clock when the request was handed to the client (0 = unknown)
 }
 
 // analysis options
@@ -87,7 +88,7 @@ func (w *world) analyseLog(es []*rm.Entry, o logOpts) []*evid.Violation {
 	timingOff := false // set once a request went to a URL that bypasses per-host accounting
 	for i, e := range es {
 		if g, ok := gAt[i]; ok && g.read && g.end > g.start {
-			for _, v := range w.checkOrder(es[g.start:g.end], st, timingOff) {
+			for _, v := range w.checkOrder(es[g.start:g.end], st, timingOff, g.called) {
 				add(v)
 			}
 		}
@@ -154,7 +155,7 @@ func (w *world) analyseLog(es []*rm.Entry, o logOpts) []*evid.Violation {
 // checkOrder evaluates clause (5) for one logical read request that is offered
 // to every configured host. Hosts that were never contacted count as "after"
 // every contacted one.
-func (w *world) checkOrder(lr []*rm.Entry, st map[string]*hostState, timingOff bool) []*evid.Violation {
+func (w *world) checkOrder(lr []*rm.Entry, st map[string]*hostState, timingOff bool, called time.Duration) []*evid.Violation {
 	var out []*evid.Violation
 	var firsts []string
 	pos := map[string]int{}
@@ -205,6 +206,18 @@ func (w *world) checkOrder(lr []*rm.Entry, st map[string]*hostState, timingOff b
 				} else if w.prio(b) == w.prio(a) && a == upName {
 					out = append(out, evid.V("upstream-before-equal-priority-mirror", "read %s %s: first contacts %s; the named registry was tried before mirror %s of the same priority %d",
 						lr[0].Method, lr[0].Path, desc(), short(b), w.prio(a)))
+				}
+			}
+			// (5b') the very first contact is a host whose server-requested delay (>= 1 s, valid
+			// delay-seconds) had most of its time left when the request was handed to the client,
+			// while b never failed. The client sleeps before contacting a, so no arrival precedes the
+			// end of the window; this verdict therefore assumes that the client decides the order
+			// within 3/4 of the delay (>= 750 ms) after being called, and is confirmed by repetition.
+			if sa, ok := st[a]; ok && !timingOff && i == 0 && sa.lastFail != nil && sa.lastRA >= time.Second && clean(b) && called > 0 && w.prio(a) >= w.prio(b) {
+				if called+sa.lastRA*3/4 < sa.lastFail.Done+sa.lastRA {
+					out = append(out, evid.V("retry-after-host-tried-first-while-others-available", "read %s %s: first contacts %s; %s answered request #%d with Retry-After %v at %v; this request was handed to the client at %v (%v of the delay left), "+
+						"%s never failed, yet the client waited for %s and contacted it first (arrival %v)",
+						lr[0].Method, lr[0].Path, desc(), short(a), sa.lastFail.Seq, sa.lastRA, sa.lastFail.Done, called, sa.lastFail.Done+sa.lastRA-called, short(b), short(a), aFirst))
 				}
 			}
 			// (5b) a is certainly inside its back-off window when the order was decided, b never failed
